@@ -86,7 +86,7 @@ func Encode(b []byte, v int32) int {
 		b[1] = byte(u >> 20)
 		b[2] = byte(u >> 12)
 		b[3] = byte(u >> 4)
-		b[4] = byte(u)
+		b[4] = byte(u) & 0x0f
 		return 5
 	}
 }
